@@ -17,7 +17,7 @@ RULE = (
     "(objects ==, numbers identical, registry entries identical); where the current spelling is rejected (cross-type "
     "conversions and constructions with a unit of another quantity type) the legacy spelling is rejected too. Plus FixUnitIfIsLegacy(legacy) == current, idempotent on "
     "all 62 + 1548 symbols, no current symbol rewritten, no legacy spelling registered; spellings combining two legacy fragments (as units "
-    "registered at run time may) are rewritten by the whole chain, idempotently, and alias a run-time unit exactly. Every cell is non-trivial "
+    "registered at run time may) are rewritten by the whole chain, idempotently, and alias a run-time unit exactly. Objects created with the legacy spelling in a category registered a moment ago with that spelling carry the current spelling and equal the current-spelled ones. Every cell is non-trivial "
     "(an alias resolution); key = (spelling, API entry)."
 )
 ASSUMPTIONS = ["arbitrary strings are outside the domain (the rewrite is a substring chain)", "legacy fragments are an independent copy of the documented list; a pair removed from the library is a violation, a pair added is not"]
@@ -240,7 +240,15 @@ class Checker:
                         from barril.units import Scalar
 
                         s = Scalar(name)
-                        outs.append((vname, "ok", tuple(info.valid_units) if info.valid_units is not None else None, info.default_unit, db.GetDefaultUnit(name), tuple(db.GetValidUnits(name)), s.GetUnit(), repr(s.GetValue())))
+                        # objects created in the new category right after the registration, with the legacy spelling:
+                        # they carry the current spelling and equal the ones built with it
+                        from barril.units import Array, FractionScalar, ObtainQuantity
+
+                        o_l, o_u = Scalar(name, 2.5, l), Scalar(name, 2.5, u)
+                        made = (o_l.GetUnit(), o_l == o_u, ObtainQuantity(l, name).GetUnit(), ObtainQuantity(l, name) == ObtainQuantity(u, name), Array(name, [1.0], l).GetUnit(), FractionScalar(name, 1.0, l).GetUnit(), s.CreateCopy(unit=l).GetUnit())
+                        if made != (u, True, u, True, u, u, u):
+                            ctx.record("legacy_spelling_kept_in_registered_category:%s" % vname, {"kind": "registration", "legacy": l, "current": u, "variant": vname}, "after AddCategory(%s, spelled %r): objects created with the legacy spelling %r give (unit, equal to the current-spelled one, quantity unit, equal quantity, Array unit, FractionScalar unit, CreateCopy unit) = %r" % (vname, spelling, l, made))
+                        outs.append((vname, "ok", tuple(info.valid_units) if info.valid_units is not None else None, info.default_unit, db.GetDefaultUnit(name), tuple(db.GetValidUnits(name)), s.GetUnit(), repr(s.GetValue()), made))
                     except Exception as e:
                         outs.append((vname, "raises", type(e).__name__))
                 results[spelling] = outs
